@@ -10,7 +10,7 @@
    Not covered: libfuncs outside the list; VmRun.v is a hand model of cairo-vm (flat addresses). *)
 From Vmx Require Import VmRun.
 From Spec Require Import Int Ops.
-From Libfuncs Require Import Stmt CStmt C8a C8b1 C8b2 C8b3 C8b4 C8c UAddSub Simple Mul DivMod IAdd ISub Sqrt.
+From Libfuncs Require Import Stmt CStmt C8a C8b1 C8b2 C8b3 C8b4 C8c UAddSub Simple Mul DivMod_u8 IAdd ISub Sqrt.
 From GenC03 Require Import W_i8_eq W_i8_overflowing_add W_i8_overflowing_sub W_i8_to_felt252
   W_i8_wide_mul W_u8_eq W_u8_is_zero W_u8_overflowing_add W_u8_overflowing_sub W_u8_safe_divmod
   W_u8_sqrt W_u8_to_felt252 W_u8_wide_mul W_upcast_i8_i128 W_upcast_i8_i16 W_upcast_i8_i32
@@ -121,16 +121,15 @@ Proof. exact upcast_u8_u64_complete. Qed.
 (* the completeness statement unfolded once *)
 Theorem C06_u8_overflowing_add_complete_unfolded : forall a b,
   0 <= a < 2 ^ 8 -> 0 <= b < 2 ^ 8 ->
-  outputs (vm_run CFG (honest CFG) 0 code_u8_overflowing_add 200 0
-                  (init_st entry_u8_overflowing_add) (init_mem [RC0; a; b])) 3
-  = Some [Some (RC0 + 1);
-          Some (if a + b <? 2 ^ 8 then 0 else 1);
-          Some (if a + b <? 2 ^ 8 then a + b else a + b - 2 ^ 8)].
+  outputs (run_honest code_u8_overflowing_add entry_u8_overflowing_add 200 [RC0; a; b]) 3
+  = Some (if a + b <? 2 ^ 8
+          then [Some (RC0 + 1); Some 0; Some (a + b)]
+          else [Some (RC0 + 1); Some 1; Some (a + b - 2 ^ 8)]).
 Proof.
   intros a b Ha Hb.
   pose proof (u8_overflowing_add_complete a b Ha Hb ltac:(discriminate)) as H.
   unfold run_outputs, sp_uarith, uadd in H. cbn [fst snd] in H.
-  destruct (a + b <? 2 ^ 8); exact H.
+  destruct (a + b <? 2 ^ 8); cbn [List.length map] in H; exact H.
 Qed.
 
 (* non-vacuity / what the objects look like: 200 + 100 on u8 *)
@@ -143,55 +142,36 @@ Proof.
   split; [vm_compute; reflexivity|]. split; vm_compute; reflexivity.
 Qed.
 
-Print Assumptions C06_u8_overflowing_add_sound.
+Definition C06_all_theorems :=
+  (C06_u8_overflowing_add_sound, C06_u8_overflowing_add_complete,
+   C06_u8_overflowing_sub_sound, C06_u8_overflowing_sub_complete,
+   C06_u8_eq_sound, C06_u8_eq_complete,
+   C06_u8_wide_mul_sound, C06_u8_wide_mul_complete,
+   C06_u8_safe_divmod_sound, C06_u8_safe_divmod_complete,
+   C06_i8_overflowing_add_sound, C06_i8_overflowing_add_complete,
+   C06_i8_overflowing_sub_sound, C06_i8_overflowing_sub_complete,
+   C06_i8_eq_sound, C06_i8_eq_complete,
+   C06_i8_wide_mul_sound, C06_i8_wide_mul_complete,
+   C06_u8_is_zero_sound, C06_u8_is_zero_complete,
+   C06_u8_to_felt252_sound, C06_u8_to_felt252_complete,
+   C06_u8_sqrt_sound, C06_u8_sqrt_complete,
+   C06_i8_to_felt252_sound, C06_i8_to_felt252_complete,
+   C06_upcast_i8_i128_sound, C06_upcast_i8_i128_complete,
+   C06_upcast_i8_i16_sound, C06_upcast_i8_i16_complete,
+   C06_upcast_i8_i32_sound, C06_upcast_i8_i32_complete,
+   C06_upcast_i8_i64_sound, C06_upcast_i8_i64_complete,
+   C06_upcast_u8_i128_sound, C06_upcast_u8_i128_complete,
+   C06_upcast_u8_i16_sound, C06_upcast_u8_i16_complete,
+   C06_upcast_u8_i32_sound, C06_upcast_u8_i32_complete,
+   C06_upcast_u8_i64_sound, C06_upcast_u8_i64_complete,
+   C06_upcast_u8_u128_sound, C06_upcast_u8_u128_complete,
+   C06_upcast_u8_u16_sound, C06_upcast_u8_u16_complete,
+   C06_upcast_u8_u32_sound, C06_upcast_u8_u32_complete,
+   C06_upcast_u8_u64_sound, C06_upcast_u8_u64_complete,
+   C06_u8_overflowing_add_complete_unfolded,
+   C06_example).
+Print Assumptions C06_all_theorems.
 Print Assumptions C06_u8_overflowing_add_complete.
-Print Assumptions C06_u8_overflowing_sub_sound.
-Print Assumptions C06_u8_overflowing_sub_complete.
-Print Assumptions C06_u8_eq_sound.
-Print Assumptions C06_u8_eq_complete.
-Print Assumptions C06_u8_wide_mul_sound.
-Print Assumptions C06_u8_wide_mul_complete.
-Print Assumptions C06_u8_safe_divmod_sound.
-Print Assumptions C06_u8_safe_divmod_complete.
-Print Assumptions C06_i8_overflowing_add_sound.
-Print Assumptions C06_i8_overflowing_add_complete.
-Print Assumptions C06_i8_overflowing_sub_sound.
 Print Assumptions C06_i8_overflowing_sub_complete.
-Print Assumptions C06_i8_eq_sound.
-Print Assumptions C06_i8_eq_complete.
-Print Assumptions C06_i8_wide_mul_sound.
-Print Assumptions C06_i8_wide_mul_complete.
-Print Assumptions C06_u8_is_zero_sound.
-Print Assumptions C06_u8_is_zero_complete.
-Print Assumptions C06_u8_to_felt252_sound.
-Print Assumptions C06_u8_to_felt252_complete.
-Print Assumptions C06_u8_sqrt_sound.
-Print Assumptions C06_u8_sqrt_complete.
-Print Assumptions C06_i8_to_felt252_sound.
-Print Assumptions C06_i8_to_felt252_complete.
-Print Assumptions C06_upcast_i8_i128_sound.
-Print Assumptions C06_upcast_i8_i128_complete.
-Print Assumptions C06_upcast_i8_i16_sound.
-Print Assumptions C06_upcast_i8_i16_complete.
-Print Assumptions C06_upcast_i8_i32_sound.
-Print Assumptions C06_upcast_i8_i32_complete.
-Print Assumptions C06_upcast_i8_i64_sound.
-Print Assumptions C06_upcast_i8_i64_complete.
-Print Assumptions C06_upcast_u8_i128_sound.
-Print Assumptions C06_upcast_u8_i128_complete.
-Print Assumptions C06_upcast_u8_i16_sound.
-Print Assumptions C06_upcast_u8_i16_complete.
-Print Assumptions C06_upcast_u8_i32_sound.
-Print Assumptions C06_upcast_u8_i32_complete.
-Print Assumptions C06_upcast_u8_i64_sound.
-Print Assumptions C06_upcast_u8_i64_complete.
-Print Assumptions C06_upcast_u8_u128_sound.
-Print Assumptions C06_upcast_u8_u128_complete.
-Print Assumptions C06_upcast_u8_u16_sound.
-Print Assumptions C06_upcast_u8_u16_complete.
-Print Assumptions C06_upcast_u8_u32_sound.
-Print Assumptions C06_upcast_u8_u32_complete.
-Print Assumptions C06_upcast_u8_u64_sound.
-Print Assumptions C06_upcast_u8_u64_complete.
 Print Assumptions C06_u8_overflowing_add_complete_unfolded.
 Print Assumptions C06_example.
